@@ -120,6 +120,21 @@ def setup {G : Type} (s : Inst G) (c : Cfg G) : Inst G :=
     axisCount := c.axisCount
     maxStack := c.maxStackElements }
 
+/-- what `setup` (above) does to each field of `struct HintInstance`, as data: the same table is
+re-extracted from instance.rs by translate/c12_src.py on every run -/
+def setupActions : List (String × String) :=
+  [("functions", "clear+resize"), ("instructions", "resize"), ("cvt", "clear+fill"),
+   ("storage", "clear+resize"), ("graphics", "assign"), ("twilight_scaled", "clear+resize"),
+   ("twilight_original_scaled", "clear+resize"), ("twilight_flags", "clear+resize"),
+   ("axis_count", "assign"), ("max_stack", "assign")]
+
+/-- every field is either overwritten without looking at its old contents, or only resized *and*
+then wiped by the font-program reset -/
+def resetComplete (fields : List (String × String)) (fontReset : List String) : Bool :=
+  fields.all fun fa =>
+    fa.2 == "clear+resize" || fa.2 == "clear+fill" || fa.2 == "assign" ||
+    (fa.2 == "resize" && fontReset.contains fa.1)
+
 /-- the mutable state `Engine::new` is handed in `reconfigure` -/
 structure EngineState (G : Type) where
   functions : List Defn
